@@ -11,6 +11,7 @@ CONSTANTS
   ClassExprs <- ClassExprsCore
   Repaired = {}
   Variant = "asCoded"
+  NonceCtxs = {"c1"}
   MaxNonces = 1
   MaxSteps = 99
   EmitEdges = TRUE
